@@ -340,7 +340,8 @@ pub fn handle(op: &str, a: &[&str]) -> Option<String> {
             let stats = tail.rsplit(' ').next()?;
             Some(format!("{cycles} {stats}"))
         }
-        ("rs_history", [n, fbsize, maxlarge, h]) => Some(run_history(
+        // `rs_history_stack`: same request; the Lean driver answers it with its explicit-stack model
+        ("rs_history", [n, fbsize, maxlarge, h]) | ("rs_history_stack", [n, fbsize, maxlarge, h]) => Some(run_history(
             uint_of(n)?,
             fbsize.parse().ok()?,
             u64_of(maxlarge)?,
